@@ -359,10 +359,18 @@ def run_sched(spec, res):
     for entry, n, b, w in (('lpm', 9, 2, 2), ('lpm', 12, 3, 3), ('parmap', 12, 4, 3),
                            ('pft', 9, 2, 2), ('pft', 12, 3, 3), ('pft', 12, 4, 3),
                            ('pf1', 9, 2, 1), ('stp', 9, 1, 1)):
-        sc = cs.make(entry, n, b, w)
+        base_sc = cs.make(entry, n, b, w)
+        from ..vias import VIAS
         for i in range(spec['runs']):
             seed = rng.randrange(1 << 30)
             name = ('youngest', 'starve', 'random', 'pct', 'sticky')[i % 5]
+            sc = base_sc
+            if entry in ('parmap', 'pft', 'pf1') and i % 2:
+                # the same stage consumed through a copy / below a lazy apply /
+                # inside the profiling wrapper: "one buffer ahead" is about the
+                # buffer the user configured
+                sc = dict(base_sc, path=VIAS[1 + (i // 2) % (len(VIAS) - 1)])
+                res.count('scheduled_executions_through_copies')
             r = conc.run(sc, cs.chooser_for(name, random.Random(seed)))
             if r['deadlock'] or r['steplimit']:
                 continue
